@@ -133,9 +133,15 @@ fn expect_bytes<const N: usize>(ex: &Ex, v: &Value, want: &[u8; N], want_len: us
 // binary_set([bin, byte_offset, bit_offset, value, num_bits]) -> bin
 
 fn h_binary_set(len1: usize) {
+    h_binary_set_at(len1, None)
+}
+
+/// `fixed_bo`: concretise the byte offset (the 9-byte read-modify-write body only finishes in CBMC
+/// when the window position is concrete; the offset-overflow clause is then outside the instance)
+fn h_binary_set_at(len1: usize, fixed_bo: Option<i128>) {
     const N: usize = 10;
     let (bytes, len) = any_bytes::<N>(len1);
-    let bo: i128 = kani::any();
+    let bo: i128 = match fixed_bo { Some(b) => b, None => kani::any() };
     let bi: i128 = kani::any();
     let val: i128 = kani::any();
     let nb: i128 = kani::any();
@@ -839,6 +845,13 @@ fn c12_binary_get__8() {
 #[kani::stub(alloc::fmt::format, fmt_stub)]
 fn c12_binary_get__9() {
     h_binary_get(9);
+}
+
+#[kani::proof]
+#[kani::unwind(12)]
+#[kani::stub(alloc::fmt::format, fmt_stub)]
+fn c12_binary_set_window__9() {
+    h_binary_set_at(9, Some(0));
 }
 
 #[kani::proof]
